@@ -216,6 +216,8 @@ impl PeerModel {
 pub enum SenderKind {
     /// QoS 1 with a caller-chosen packet id (collisions on purpose)
     Q1Pid(u16),
+    /// streamed QoS 1 send (5 bytes) with a caller-chosen packet id that may be in use
+    StreamPid(u16),
     /// topic longer than 65535 bytes: must fail locally
     BadTopic,
     /// v5: bigger than the peer's Maximum Packet Size: must fail locally
@@ -264,6 +266,16 @@ fn make_sender(app: &Rc<App>, sink: &Sink, kind: SenderKind, manual_release: boo
     let fut: crate::sink::BoxFut<SinkRes> = match kind {
         SenderKind::Q1 => sink.send_qos1(&PubSpec::new("w/q1", payload_for(id, 0))),
         SenderKind::Q1Pid(p) => sink.send_qos1(&PubSpec::new("w/q1p", payload_for(id, 0)).pid(Some(p))),
+        SenderKind::StreamPid(p) => {
+            let cmds = Chan::new();
+            cmds.push(crate::sink::StreamCmd::Chunk(b"12345".to_vec()));
+            cmds.push(crate::sink::StreamCmd::DropHandle);
+            let (ack, writer) = sink.stream_qos1(&PubSpec::new("w/st", vec![]).pid(Some(p)), 5, cmds, Rc::new(|_, _| {}));
+            let _ = ntex_util::spawn(async move {
+                let _ = writer.await;
+            });
+            ack
+        }
         SenderKind::BadTopic => sink.send_qos1(&PubSpec::new(&"t".repeat(65_540), payload_for(id, 0))),
         SenderKind::TooBig => {
             let mut pl = payload_for(id, 0);
@@ -360,6 +372,12 @@ pub async fn walk(cfg: &WalkCfg, ch: &mut dyn Choose) -> WalkOutcome {
         kinds.push(SenderKind::Q1Pid(1));
         kinds.push(SenderKind::Q1Pid(2));
         kinds.push(SenderKind::Q1Pid(65535));
+        if !cfg.allow_qos2 {
+            // a PUBREL cannot be written while a streamed payload is owed; the combination of
+            // exactly-once sends with streamed sends is outside of what C06/C14 quantify over
+            kinds.push(SenderKind::StreamPid(1));
+            kinds.push(SenderKind::StreamPid(2));
+        }
         kinds.push(SenderKind::BadTopic);
         if cfg.role.is_v5() {
             kinds.push(SenderKind::TooBig);
@@ -564,6 +582,30 @@ pub async fn walk(cfg: &WalkCfg, ch: &mut dyn Choose) -> WalkOutcome {
         }
         rounds += 1;
     }
+    // a final probe: after everything settled a fresh QoS 1 send must still work (a sink wedged by
+    // an earlier failed send would refuse it)
+    if cfg.allow_local_failures && app.stops().is_empty() && !c.done() {
+        let id = next_op_id();
+        let mut probe = Op::new(&app, id, "final-probe", sink.send_qos1(&PubSpec::new("w/probe", payload_for(id, 0))));
+        probe.start();
+        for _ in 0..4 {
+            c.settle().await;
+            pm.absorb(&app);
+            while let Some(p) = pm.next_ack() {
+                let seq = app.log(Ev::PeerSent(crate::map::brief(&p)));
+                pm.note_ack(seq, &p);
+                c.peer.write_quiet(&crate::refcodec::encode(c.peer.ver, &p).unwrap());
+            }
+        }
+        c.settle().await;
+        match probe.result() {
+            Some(r) if r.is_ok() => *out.stats.entry("final_probes_ok").or_insert(0) += 1,
+            other => out.violations.push(Violated {
+                class: format!("a fresh send fails after earlier sends failed locally: {}", crate::pool::abstract_numbers(&format!("{other:?}"))),
+                what: "final probe QoS 1 send on a healthy connection".into(),
+            }),
+        }
+    }
     out.max_outstanding = pm.max_outstanding;
     let stops = app.stops();
     if let Some((_, cl, d)) = stops.first() {
@@ -583,7 +625,8 @@ pub async fn walk(cfg: &WalkCfg, ch: &mut dyn Choose) -> WalkOutcome {
             } else if let Some(r) = s.op.result() {
                 let must_fail = matches!(s.kind, SenderKind::BadTopic | SenderKind::TooBig);
                 // with caller-chosen ids in play an automatic id may legitimately collide with one of them
-                let may_fail = cfg.allow_local_failures && matches!(r, SinkRes::ErrIdInUse(_));
+                let may_fail = cfg.allow_local_failures
+                    && (matches!(r, SinkRes::ErrIdInUse(_) | SinkRes::ErrStreamingCancelled) || matches!(&r, SinkRes::ErrEncode(e) if e == "ExpectPayload"));
                 if must_fail {
                     if matches!(r, SinkRes::ErrEncode(_) | SinkRes::ErrIdInUse(_)) {
                         *out.stats.entry("local_failures_as_expected").or_insert(0) += 1;
